@@ -38,6 +38,8 @@ func init() {
 func checkC15(p *Program, r *Report) {
 	r.Explanation = "End-to-end exchange over sockets is not decidable statically. Decided: the structural conditions that the segment paths of client and server depend on - envelopes placed in segments have their per-envelope compression flag cleared by an assignment (a discarded result of a pure flag method is reported anywhere in the module), every pointer-like field a connection method dereferences is initialised by every constructor, the switch to segment framing happens only after READY/AUTHENTICATE for versions whose specification has the modern framing (predicate table checked against spec/capabilities.tsv), the reassembly accumulator is fully reset, its target is header length plus declared body length, and self-contained segments are drained completely."
 	r.Trusted = []string{"go/ssa", "absint evaluator", "spec/capabilities.tsv row SupportsModernFramingLayout"}
+	// segments and envelopes arrive in pieces on a socket: every read on the receive paths is exact
+	fullReads(p, r, "full-reads", "client", "segment", "frame", "primitive")
 
 	// ---- flag-clear -------------------------------------------------------------------------------------
 	r.Floor("flag-clear", 2)
